@@ -93,6 +93,13 @@ def model_step(chk, prop, tier):
                          timeout=m.get("timeout", 600), simulate=m.get("simulate"), depth=m.get("depth"),
                          coverage=m.get("coverage", False), heap=m.get("heap", "8g"))
         chk.add_model(m["cfg"], res)
+        if m.get("expect") == "violation":
+            # vacuity probe: the negation of "the interesting state is reachable" MUST be violated
+            chk.cov.setdefault("vacuity_probes", {})[m["cfg"]] = "reached" if res.violation else "NOT REACHED"
+            if not res.violation:
+                chk.broken.append("vacuity probe %s was not violated: the model never reaches the states the property "
+                                  "speaks about (%s)" % (m["cfg"], res.broken or "no error found"))
+            continue
         if res.violation:
             # a design-level counterexample: reported, and decided on the real code by the G/T steps
             chk.notes.setdefault("spec_counterexamples", []).append(
